@@ -59,23 +59,28 @@ CheckpointR(s) ==
   IN [st |-> [s EXCEPT !.files = kept \cup {<<s.gen, s.order>>}], res |-> TRUE]
 
 \* load_from_disk(g): the saved order comes back exactly; a missing file is
-\* an error and leaves everything as it was.
-LoadR(s, g) ==
+\* an error and leaves everything as it was.  A checkpoint written by a tracker
+\* of a larger capacity (the directory was reopened with a smaller one) brings
+\* back its c most recently used keys; one written with a smaller capacity
+\* comes back whole and the tracker keeps its own capacity c.
+MostRecent(o, c) == DropN(o, IF Len(o) > c THEN Len(o) - c ELSE 0)
+LoadR(s, c, g) ==
   IF g \in Gens(s.files)
-  THEN [st |-> [s EXCEPT !.order = FileAt(s.files, g), !.gen = g], res |-> TRUE]
+  THEN [st |-> [s EXCEPT !.order = MostRecent(FileAt(s.files, g), c), !.gen = g], res |-> TRUE]
   ELSE [st |-> s, res |-> FALSE]
 
 \* run_cycle(limit entries at 1 byte each): load the newest checkpoint if any,
 \* evict down to `limit` (0 = unlimited), delete stale generations; the
 \* result is the number of tracked entries.
-RunCycleR(s, limit) ==
-  LET s1 == IF s.files = {} THEN s ELSE LoadR(s, MaxOf(Gens(s.files))).st
+RunCycleR(s, c, limit) ==
+  LET s1 == IF s.files = {} THEN s ELSE LoadR(s, c, MaxOf(Gens(s.files))).st
       n  == Len(s1.order)
       o2 == IF limit > 0 /\ n > limit THEN DropN(s1.order, n - limit) ELSE s1.order
       f2 == {p \in s1.files : p[1] \in {s1.gen, s1.prev}}
   IN [st |-> [s1 EXCEPT !.order = o2, !.files = f2], res |-> Len(o2)]
 
-\* a new manager object on the same directory
+\* a new manager object on the same directory (possibly of another capacity: the
+\* operation record then carries the field `cap`, see CapAfter)
 ReopenR(s) == [st |-> [S0 EXCEPT !.files = s.files], res |-> TRUE]
 
 \* ---- dispatch on an operation record -------------------------------------
@@ -87,9 +92,11 @@ Apply(s, c, e) ==
     [] e.op = "reset"           -> ResetR(s)
     [] e.op = "bump"            -> BumpR(s)
     [] e.op = "checkpoint"      -> CheckpointR(s)
-    [] e.op = "load"            -> LoadR(s, e.g)
-    [] e.op = "run_cycle"       -> RunCycleR(s, e.limit)
+    [] e.op = "load"            -> LoadR(s, c, e.g)
+    [] e.op = "run_cycle"       -> RunCycleR(s, c, e.limit)
     [] e.op = "reopen"          -> ReopenR(s)
+\* the capacity in force after operation e
+CapAfter(c, e) == IF e.op = "reopen" /\ "cap" \in DOMAIN e THEN e.cap ELSE c
 
 \* ---- the state machine ----------------------------------------------------
 VARIABLES s, res
@@ -98,18 +105,22 @@ Init == s = S0 /\ res = TRUE
 Do(e) == LET r == Apply(s, Cap, e) IN s' = r.st /\ res' = r.res
 
 \* ---- properties of the design (checked by TLC on MC_Lru) ------------------
-Bounded   == Len(s.order) <= Cap
+BoundedC(c) == Len(s.order) <= c
+Bounded   == BoundedC(Cap)
 Distinct  == \A i, j \in 1..Len(s.order): i # j => s.order[i] # s.order[j]
 FilesFn   == \A p, q \in s.files : p[1] = q[1] => p = q
 \* a touch with capacity >= 1 leaves the key present and most recent
-TouchMRU(k) == Cap >= 1 => LET o == TouchR(s, Cap, k).st.order IN o[Len(o)] = k
+TouchMRUC(c, k) == c >= 1 => LET o == TouchR(s, c, k).st.order IN o[Len(o)] = k
+TouchMRU(k) == TouchMRUC(Cap, k)
 \* capacity is never lost: touching Cap distinct keys in a row keeps them all
 \* (stated on the function; an implementation that leaks slots fails it)
-NoCapacityLoss(ks) ==
+NoCapacityLossC(c, ks) ==
   LET RECURSIVE Run(_, _)
-      Run(st, i) == IF i > Len(ks) THEN st ELSE Run(TouchR(st, Cap, ks[i]).st, i + 1)
-  IN Len(ks) <= Cap /\ (\A i, j \in 1..Len(ks): i # j => ks[i] # ks[j])
+      Run(st, i) == IF i > Len(ks) THEN st ELSE Run(TouchR(st, c, ks[i]).st, i + 1)
+  IN Len(ks) <= c /\ (\A i, j \in 1..Len(ks): i # j => ks[i] # ks[j])
        => SetOf(ks) \subseteq SetOf(Run(s, 1).order)
+NoCapacityLoss(ks) == NoCapacityLossC(Cap, ks)
 \* checkpoint then load of the same generation is the identity on the order
-SaveLoadId == LET c == CheckpointR(s).st IN LoadR(c, c.gen).st.order = s.order
+SaveLoadIdC(c) == LET x == CheckpointR(s).st IN LoadR(x, c, x.gen).st.order = s.order
+SaveLoadId == SaveLoadIdC(Cap)
 =============================================================================
